@@ -24,7 +24,21 @@ HYPER = ["newmark", "midpoint", "hht", "hht_newmark", "euler_implicit", "euler_e
 ALGOS = ["parabolic"] + HYPER
 
 
-def _params(c, algo, tag=""):
+PINS = {  # parameter values a user types as plain numbers: the library's defaults and the documented degenerate cases (exact float tests in the code land here)
+    "hht": [{"alpha": 0.5}, {"alpha": 0.0}, {"alpha": 0.5, "beta": 0.25, "gamma": 0.5}],
+    "newmark": [{"beta": 0.25, "gamma": 0.5}],
+    "parabolic": [{"alpha": 0.5}, {"alpha": 1.0}],
+    "hht_newmark": [{"alpha": 0.0}],
+}
+
+
+def _params(c, algo, tag="", pin=None):
+    dt, alpha, beta, gamma = _params_sym(c, algo, tag)
+    pin = pin or {}
+    return dt, pin.get("alpha", alpha), (pin.get("beta", beta) if beta is not None else None), (pin.get("gamma", gamma) if gamma is not None else None)
+
+
+def _params_sym(c, algo, tag=""):
     dt = c.var("dt" + tag, Fraction(1, 100), 10)
     if algo == "hht_newmark":
         alpha = c.var("alpha" + tag, 0, Fraction(1, 3))
@@ -188,7 +202,7 @@ def job_step(cfg):
     else:
         mesh, simu, g = build(c, ne, ("K", "C", "F") if algo == "parabolic" else ("K", "C", "M", "F"))
     n = mesh.Nn
-    dt, alpha, beta, gamma = _params(c, algo)
+    dt, alpha, beta, gamma = _params(c, algo, pin=cfg.get("pin"))
     # 'tiny': the same step in units where every state / load value is below 2^-50 ~ 9e-16 (the relations are homogeneous in the state: no
     # absolute magnitude may decide anything)
     sc = Fraction(1, 2 ** 50) if cfg.get("tiny") else Fraction(1)
@@ -236,7 +250,7 @@ def job_step(cfg):
     res.path_conditions = len(pcs)
     res.symbols = len(c.input_vids())
     free = list(range(1, n))
-    key = f"{algo} ne={ne}" + (" incremental" if incremental else "") + (" tiny state" if cfg.get("tiny") else "")
+    key = f"{algo} ne={ne}" + (" incremental" if incremental else "") + (" tiny state" if cfg.get("tiny") else "") + (" with " + ", ".join(f"{k_} = {v_}" for k_, v_ in cfg["pin"].items()) + " given as plain numbers" if cfg.get("pin") else "")
 
     def replay(env):
         mats = tuple(_num(c, env, m_) for m_ in simu.mats[g.elemType])
@@ -468,6 +482,11 @@ def main():
             configs.append({"kind": "step", "algo": algo, "ne": 1, "incremental": True})
     for algo in (ALGOS if tier == "thorough" else ["newmark", "hht", "midpoint", "parabolic"]):
         configs.append({"kind": "step", "algo": algo, "ne": 1, "tiny": True})
+    for algo, pins in PINS.items():
+        for pin in pins:
+            configs.append({"kind": "step", "algo": algo, "ne": 1, "pin": pin})
+            if tier == "thorough":
+                configs.append({"kind": "step", "algo": algo, "ne": 1, "pin": pin, "incremental": True})
     for algo in ("newmark", "midpoint", "euler_implicit"):
         configs.append({"kind": "energy", "algo": algo})
     switches = [("newmark", "hht"), ("hht", "midpoint"), ("midpoint", "newmark"), ("euler_implicit", "newmark"),
